@@ -5,6 +5,7 @@ SM = "./pkg/pdfcpu/safemath"
 TY = "./pkg/pdfcpu/types"
 FI = "./pkg/filter"
 API = "./pkg/api"
+PD = "./pkg/pdfcpu"
 
 PROPS = {
     "C12": dict(
@@ -82,6 +83,16 @@ PROPS = {
             dict(name="VerifPageRemoval", bounds=dict(quick=dict(P=4), thorough=dict(P=8)), opts=dict(unwind=100)),
             dict(name="VerifPageCollection", bounds=dict(quick=dict(P=4, T=1), thorough=dict(P=3, T=2)), opts=dict(unwind=100)),
             dict(name="VerifPageSelectionSyntax", opts=dict(workers=1)),
+        ],
+    ),
+    "C34": dict(
+        pkg=PD,
+        explanation="booklet slot functions (nup2/nup4 basic+advanced+top fold/LRTB/nup8/perfect bound) evaluated on SYMBOLIC slot indices i != j: in range and injective, hence a bijection of [0,n) (pigeonhole is the one step outside the solver), for every type x binding x orientation x N in {2,4,6,8} and every padded page count up to SHEETS sheets; the driver getBookletOrdering is run for every configuration that api.validateBookletLayout accepts, multi folio with folio sizes 0..12 included",
+        outside="page counts above the bounds; n-up / grid placement (impositionPages) and the rendering of pages into slots; image booklets",
+        harnesses=[
+            dict(name="VerifBookletSlots", bounds=dict(quick=dict(SHEETS=3), thorough=dict(SHEETS=13)), opts=dict(unwind=500)),
+            dict(name="VerifBookletSlotFunction", bounds=dict(quick=dict(SHEETS=2), thorough=dict(SHEETS=6)), opts=dict(unwind=500)),
+            dict(name="VerifBookletAccepted", pkg=API, bounds=dict(quick=dict(M=40), thorough=dict(M=200)), opts=dict(unwind=500)),
         ],
     ),
     "C42": dict(
